@@ -700,15 +700,16 @@ func (idx *indexer) indexSince(txID uint64) error {
 						txmd = prevTxHdr.Metadata.Bytes()
 					}
 
-					var kvmd *KVMetadata
+					// the metadata of an entry read from the tx log is read-only: mark a writable copy as deleted
+					kvmd := NewKVMetadata()
 
 					if prevEntry.Metadata() != nil {
-						kvmd = prevEntry.Metadata()
-					} else {
-						kvmd = NewKVMetadata()
+						for code, attr := range prevEntry.Metadata().attributes {
+							kvmd.attributes[code] = attr
+						}
 					}
 
-					kvmd.AsDeleted(true)
+					err = kvmd.AsDeleted(true)
 					if err != nil {
 						return err
 					}
